@@ -2,7 +2,6 @@ package props
 
 import (
 	"fmt"
-	"math"
 	"runtime/debug"
 	"sort"
 	"strings"
@@ -45,7 +44,7 @@ var c13Features = []string{
 }
 
 func (c13) Thresholds(tier string) map[string]int64 {
-	th := map[string]int64{"lines": 50000, "attributes-checked": 80000, "through-a-script": 3000, "text-for-attribute-calls": 80000, "letters-supplied-by-interpolation": 2000, "same-name-metamorphic-pairs": 2500, "marked-up-options-through-a-script": 800}
+	th := map[string]int64{"attribute-lookups-by-name": 50000, "lines": 50000, "attributes-checked": 80000, "through-a-script": 3000, "text-for-attribute-calls": 80000, "letters-supplied-by-interpolation": 2000, "same-name-metamorphic-pairs": 2500, "marked-up-options-through-a-script": 800}
 	for _, f := range c13Features {
 		th["f:"+f] = 200
 	}
@@ -53,7 +52,7 @@ func (c13) Thresholds(tier string) map[string]int64 {
 }
 
 func (c13) Rule() string {
-	return "case = 100 lines generated with ground truth by construction: a sequence of <=12 items {text chunk (ASCII, multi-byte, CJK, astral, blanks), \\[ \\], open marker, close by name (any open one: overlaps), close-all, self-closing marker (with the documented white-space rule and trimwhitespace=false), replacement marker select/plural/ordinal/nomarkup (self-closing or closed by name, every case, % placeholder)}, markers with 0-3 properties of every value kind (12, 007, 1.05, 0.007, 2.50, true/False/TRUE, quoted incl. escapes, bare words, shorthand [a=v]), blanks inside markers, optional 'Name: ' prefix (ASCII / multi-byte), white space at either edge; the generator records for every marker the rune range it encloses in the final trimmed text. Each line is parsed directly (fresh parser value) and, for script-safe lines, shown through a dialogue (Line.Attributes), half of them with some plain letters outside the markers supplied by inline expressions (markup on interpolated text). Oracle: Text == ground truth; the attributes equal the ground truth as a multiset of (name, position, length, typed properties; floats with relative tolerance 1e-12); TextForAttribute(a) == the enclosed text. Metamorphic sub-workload (5 per case): a line with two markers of the same name open at once is parsed with and without an extra unrelated [zz]...[/zz] pair; no range is predicted (the pairing rule is not fixed by the property text) but the text each of the two encloses must not depend on the unrelated pair. Non-trivial: >=2 markers of which two intersect, or a multi-byte rune before a marker, or a replacement marker. Distinct by hash of the line."
+	return "case = 100 lines generated with ground truth by construction: a sequence of <=12 items {text chunk (ASCII, multi-byte, CJK, astral, blanks), \\[ \\], open marker, close by name (any open one: overlaps), close-all, self-closing marker (with the documented white-space rule and trimwhitespace=false), replacement marker select/plural/ordinal/nomarkup (self-closing or closed by name, every case, % placeholder)}, markers with 0-3 properties of every value kind (12, 007, 1.05, 0.007, 2.50, true/False/TRUE, quoted incl. escapes, bare words, shorthand [a=v]), blanks inside markers, optional 'Name: ' prefix (ASCII / multi-byte), white space at either edge; the generator records for every marker the rune range it encloses in the final trimmed text. Each line is parsed directly (fresh parser value) and, for script-safe lines, shown through a dialogue (Line.Attributes), half of them with some plain letters outside the markers supplied by inline expressions (markup on interpolated text). Oracle: Text == ground truth; the attributes equal the ground truth as a multiset of (name, position, length, typed properties; decimal values exactly the double nearest to the written literal; decimal and plural values are random literals with 1-7 fraction digits half of the time; one line in forty has 60-400 items); TextForAttribute(a) == the enclosed text. Metamorphic sub-workload (5 per case): a line with two markers of the same name open at once is parsed with and without an extra unrelated [zz]...[/zz] pair; no range is predicted (the pairing rule is not fixed by the property text) but the text each of the two encloses must not depend on the unrelated pair. Non-trivial: >=2 markers of which two intersect, or a multi-byte rune before a marker, or a replacement marker. Distinct by hash of the line."
 }
 
 func (c13) Assumptions() []string {
@@ -119,7 +118,8 @@ func propsMatch(want map[string]gen.ExpVal, got map[string]markup.Value) bool {
 			return false
 		}
 		if w.Kind == "float" {
-			if g.ValueType != markup.ValueTypeFloat || math.Abs(g.FloatValue-w.F) > 1e-12*math.Max(1, math.Abs(w.F)) {
+			// exact: the value of a decimal literal is the double nearest to it (what strconv.ParseFloat gives)
+			if g.ValueType != markup.ValueTypeFloat || g.FloatValue != w.F {
 				return false
 			}
 			continue
